@@ -2,7 +2,7 @@
    `exact <lemma>`; Print Assumptions under each. *)
 From Coq Require Import ZArith List Bool PrimFloat.
 Import ListNotations.
-Require Import PyBase Solver SolverFacts SolverF SolverExamples SolverDefaults SolverFacts8.
+Require Import PyBase Solver SolverFacts SolverF SolverExamples SolverDefaults SolverFacts8 SolverExamples3.
 Require Import SolveAll SolveAllFacts SolveAllSpan SolveAllSpanFacts SolveAllSpanFacts2 SolveAllPeriod SolveAllPeriodFacts
                SolveAllF SolveAllExamples SolveAllSpanExamples SolveAllExamples3.
 Open Scope Z_scope.
@@ -182,6 +182,8 @@ Proof. exact solver_defaults_documented. Qed.
    The convergence test over the check variables holds iff EVERY variable satisfies  abs(current - previous) < tol  with the kernel's
    IEEE subtraction, absolute value and STRICT less-than; instances at the boundary: a move of exactly tol does not converge, one ulp
    less does, one ulp more does not, the sign of the move is irrelevant, a NaN move never converges, tol = 0 never converges ---- *)
+(* (C02_float_conv_all_strict_abs unfolds `conv` into a statement per check variable — definitional; the content is the ten boundary
+   instances of C02_float_conv_boundaries and the correspondence K) *)
 Theorem C02_float_conv_all_strict_abs tl cur prev : length cur = length prev ->
   conv float PrimFloat.sub PrimFloat.abs PrimFloat.ltb tl cur prev = true <->
   (forall i c p, nth_error cur i = Some c -> nth_error prev i = Some p ->
@@ -194,6 +196,19 @@ Theorem C02_float_conv_boundaries :
   fmoved_lt tl 1 1 = true /\ fmoved_lt tl nan 0 = false /\ fmoved_lt tl infinity infinity = false /\
   fmoved_lt 0 1 1 = false.
 Proof. exact float_conv_boundaries. Qed.
+
+(* KEPT FINDING (reproduced on /repo; known_findings.d/C02.json): the theorems above hold for every arithmetic — including the wrong
+   one.  For a model whose series are UNSIGNED integers NumPy subtracts in that dtype, `current - previous` wraps (uint8: 4 - 5 = 255)
+   and a downward move smaller than tol is not recognised: with the generic model instantiated by 8-bit unsigned subtraction the period
+   whose check variable moved by 1 < tol = 3 on pass 1 is declared solved only at pass 2 — "stops at the FIRST k at which every check
+   variable has moved by strictly less than tol in absolute value" is REFUTED there (exact integers: pass 1). *)
+Theorem C02_uint8_convergence_wraps_refuted :
+  exists (ev : hook Z) d o t s,
+    Z.abs (cell Z 0 (fst (ev t (errors o) (catch_first o) 1%nat (vals_of s))) 0 1 - cell Z 0 (vals_of s) 0 1) < tol o /\
+    Z.max 1 (min_iter o) <= 1 <= max_iter o /\
+    snd (solve_t_M Z u8_sub Z.abs Z.ltb (fun _ => true) 0 ev u8_noop u8_noop d o t s) = Ret true /\
+    nth_error (iters (fst (solve_t_M Z u8_sub Z.abs Z.ltb (fun _ => true) 0 ev u8_noop u8_noop d o t s))) 1 = Some 2.
+Proof. exact uint8_convergence_wraps_refuted. Qed.
 
 (* ---- solve_period: label -> position -> solve_t, end to end.  The lookup is the model of VectorContainer._locate_period_in_span
    over the regenerated method list: list / tuple / range (.index), NumPy array (fallback), pandas Index (get_loc), and a
@@ -274,6 +289,8 @@ Print Assumptions C02_failed_iterations_eq_max_iter_refuted.
 Print Assumptions C02_solver_defaults_documented.
 Print Assumptions C02_float_conv_all_strict_abs.
 Print Assumptions C02_float_conv_boundaries.
+Print Assumptions C02_uint8_convergence_wraps_refuted.
+Print Assumptions exact_int_converges_at_1.
 Print Assumptions C02_solve_period_eq_solve_t.
 Print Assumptions C02_solve_period_eq_solve_t_period_index.
 Print Assumptions C02_solve_period_unknown_label.
